@@ -27,7 +27,7 @@ import tempfile
 from concurrent.futures import ProcessPoolExecutor
 from typing import Any
 
-from vf import orchestration, streaming, tlc
+from vf import observation, orchestration, streaming, tlc
 from vf.evidence import MachineryFailure
 
 OBJS = ['o1', 'o2', 'o3']
@@ -230,7 +230,7 @@ def run_coverage(sc: dict[str, Any]) -> dict[str, Any]:
         except Stall:
             stall = True; steps = []; orch = None
         events = [e for e in convert(sim.recorder.events, {PLURAL, 'widgets', 'cthings'}) if e['ev'] in ('check', 'notfound', 'open', 'list')]
-        return {'id': sc['id'], 'events': events, 'stall': stall, 'scenario': sc, 'steps': steps, 'orch': orch}
+        return {'id': sc['id'], 'events': events, 'stall': stall, 'scenario': sc, 'steps': steps, 'orch': orch, 'obs': observation.of_run(sim.recorder.events)}
     finally:
         sim.close()
 
@@ -285,7 +285,7 @@ def run_crdmod(sc: dict[str, Any]) -> dict[str, Any]:
         except Stall:
             stall = True; steps = []; orch = None
         events = [e for e in convert(sim.recorder.events, set()) if e['ev'] == 'check']
-        return {'id': sc['id'], 'events': events, 'stall': stall, 'scenario': sc, 'steps': steps, 'orch': orch}
+        return {'id': sc['id'], 'events': events, 'stall': stall, 'scenario': sc, 'steps': steps, 'orch': orch, 'obs': observation.of_run(sim.recorder.events)}
     finally:
         sim.close()
 
@@ -503,6 +503,19 @@ def run(ctx, rep) -> None:
             rep.nontrivial(t['events'])
         if ov[t['id']]['verdict'] != 'accepted':
             rep.violation(f'{t["id"]}: the orchestrator is not a behaviour of Orchestration.tla: {ov[t["id"]]["verdict"]}', payload=t)
+    # the observers: every call of revise_resources / revise_namespaces inside the operators of the coverage and CRD-modification runs
+    # (the scanned resources, the registry's selectors, the namespace events; the insights before and after) and on generated clusters x
+    # selector sets x re-scans, judged by the reference of Observation.tla
+    orecs = [dict(r, run=t['id']) for t in traces for r in t.get('obs', [])]
+    gen = observation.generated(ctx.seed, 300 if ctx.quick else 6000)
+    uniq, obad = observation.judge([{k: v for k, v in r.items() if k != 'run'} for r in orecs] + gen, rep)
+    rep.evaluations += len(uniq); rep.traces += len(uniq)
+    rep.extra['observation_records'] = {'from_runs': len(orecs), 'generated': len(gen), 'distinct': len(uniq)}
+    for r in uniq:
+        if r['kind'] == 'res' and r['group'] != 'all' or r['kind'] == 'ns' and r['before'] != r['after']:
+            rep.nontrivial(r)
+    for i, label in sorted(obad.items()):
+        rep.violation(f'{label}: {json.dumps(uniq[i])[:600]}', payload=uniq[i])
     rep.sample({'scenario': traces[0]['scenario'], 'events_head': traces[0]['events'][:12]}); rep.sample(traces[-1]['events'][-3:])
     if ots:
         rep.sample({'orchestrator': ots[1]['id'], 'events_head': ots[1]['events'][:12]})
